@@ -481,6 +481,7 @@ func checkC01(c *Ctx) (string, bool, []string) {
 	// tz('Local') denotes the zone local time has when the statement is parsed
 	// (a program may assign time.Local): probed in processes of their own
 	envProbe(c, "env-local-swap", "ast-differs-from-denoted")
+	envProbe(c, "env-first-tz", "grammatical-statement-rejected")
 	// 0b. long flat statements
 	for _, n := range []int{70, 300, 2000, 12000, c.N(30000, 120000)} {
 		c01Long(c, n)
